@@ -309,6 +309,7 @@ fn case_scrape(bytes: &[u8], _s: &[u8], ctx: &mut Ctx) -> Result<(), Fail> {
                     }
                 }
             };
+            ctx.class(if want_allowed { "probe-allowed" } else { "probe-denied" });
             if !want_allowed {
                 ensure!(resp.status == 403, "denied-peer-not-403", "peer {} lies in none of {:?} but got status {}", p.src, case.entries.iter().map(entry_text).collect::<Vec<_>>(), resp.status);
                 ensure!(resp.body.is_empty(), "denied-peer-got-a-body", "peer {} was denied but received {} body bytes: {:?}", p.src, resp.body.len(), String::from_utf8_lossy(&resp.body));
